@@ -532,8 +532,12 @@ func (r *PipelineRunner) startJobsOnWaitList(pipeline string) {
 		}
 
 		waitList = waitList[1:]
+		// Store the wait list before starting the job, since startJob processes the wait list again if the job could not be started
+		r.waitListByPipeline[pipeline] = waitList
 
 		r.startJob(queuedJob)
+
+		waitList = r.waitListByPipeline[pipeline]
 
 		log.
 			WithField("component", "runner").
